@@ -585,7 +585,7 @@ func callSSA(i *interpreter, caller *frame, callpos token.Pos, fn *ssa.Function,
 				return h(fr, args)
 			}
 		}
-		if st := i.stubs[name]; st != nil && (caller == nil || caller.fn != st) {
+		if st := i.stubs[name]; st != nil && i.path != nil && (caller == nil || caller.fn != st) {
 			return callSSA(i, caller, callpos, st, args, nil)
 		}
 		if ext := externals[name]; ext != nil {
